@@ -201,6 +201,29 @@ def draw_cv(tape, ds):
     return ["default"] if hygiene_ok(ds, ["default"]) else ["kfold", 2, False, None]
 
 
+def mutate_params(est):
+    """The caller changes a parameter of ITS estimator object (after handing it to cross_val_score)."""
+    import verde as vd
+
+    if isinstance(est, vd.Chain):
+        return mutate_params(est.steps[0][1])
+    if isinstance(est, vd.Vector):
+        return mutate_params(est.components[0])
+    if isinstance(est, vd.Trend):
+        est.set_params(degree=est.degree % 3 + 1)
+    elif isinstance(est, (vd.Spline, vd.VectorSpline2D)):
+        est.set_params(damping=(est.damping or 1e-3) * 7.0)
+    elif isinstance(est, vd.KNeighbors):
+        est.set_params(k=est.k % 4 + 1)
+    elif isinstance(est, vd.BlockReduce):
+        est.set_params(spacing=est.spacing * 1.6)
+    elif hasattr(est, "rescale"):
+        est.set_params(rescale=not est.rescale)
+    else:
+        return False
+    return True
+
+
 # --------------------------------------------------------------- operations
 def compare_scores(got, want, where, key=None):
     if isinstance(want, Exception):
@@ -279,11 +302,24 @@ def run_cross_val(tape, stats):
     stats["ex"] = ex
     est2 = build_estimator(spec)
     before2 = estimator_state(est2)
+    # the lazy scores / futures stand for the estimator AS PASSED: the caller may go on using (re-parameterising)
+    # its own object afterwards, e.g. in a loop over candidate parameters that builds many lazy scores
+    reuse = mode in ("delayed_all", "delayed_each", "client") and tape.coin(0.4, "caller_reuses_estimator")
+
+    def caller_reuses():
+        nonlocal before2
+        if reuse:
+            check_estimator_untouched(before2, est2, f"{mode} cross_val_score (graph construction)")
+            if mutate_params(est2):
+                stats["probes"]["caller_changed_estimator_after_call"] = 1
+            before2 = estimator_state(est2)
+
     try:
         if mode in ("delayed_all", "delayed_each"):
             delayed = vd.cross_val_score(
                 est2, *args, cv=build_cv(cvspec), scoring=build_scoring(scoring), delayed=True
             )
+            caller_reuses()
 
             def compute():
                 if mode == "delayed_all":
@@ -313,6 +349,7 @@ def run_cross_val(tape, stats):
                 futures = vd.cross_val_score(
                     est2, *args, cv=build_cv(cvspec), scoring=build_scoring(scoring), client=client
                 )
+                caller_reuses()
                 # results are requested in a tape-chosen order (the caller may wait on any future first)
                 order = list(range(len(futures)))
                 out = [None] * len(futures)
@@ -357,15 +394,26 @@ def run_merged(tape, stats, ex, ds, spec, cvspec, scoring, est2, args, must):
     import dask
     import verde as vd
 
-    spec_b = gen_spec(tape, ds.ncomp, tag="EB")
-    scoring_b = gen_scoring(tape, "scoring_b")
-    want_b = model_cross_val(ds, spec_b, cvspec, scoring_b)
-    stats["sample"]["second"] = {"estimator": spec_b, "scoring": scoring_b}
-    stats["probes"]["merged_graphs"] = 1
+    # what differs in the second evaluation: the estimator and scorer, only the data, or only the splits
+    # (the last two give two graphs whose tasks look alike except for their arguments)
+    variant = tape.pick(["other_estimator", "other_data", "other_cv"], "merged.variant")
+    spec_b, scoring_b, ds_b, cvspec_b = spec, scoring, ds, cvspec
+    if variant == "other_estimator":
+        spec_b = gen_spec(tape, ds.ncomp, tag="EB")
+        scoring_b = gen_scoring(tape, "scoring_b")
+    elif variant == "other_data":
+        ds_b = gen_dataset(tape, ncomp=ds.ncomp, tag="DB")
+        cvspec_b = cvspec if hygiene_ok(ds_b, cvspec) else draw_cv(tape, ds_b)
+    else:
+        cvspec_b = draw_cv(tape, ds)
+    args_b = (ds_b.coordinates, ds_b.data_arg(), ds_b.weights_arg())
+    want_b = model_cross_val(ds_b, spec_b, cvspec_b, scoring_b)
+    stats["sample"]["second"] = {"variant": variant, "estimator": spec_b, "scoring": scoring_b, "data": ds_b.desc, "cv": cvspec_b}
+    stats["probes"]["merged_graphs_" + variant] = 1
     est_b = build_estimator(spec_b)
     before_b = estimator_state(est_b)
     da = vd.cross_val_score(est2, *args, cv=build_cv(cvspec), scoring=build_scoring(scoring), delayed=True)
-    db = vd.cross_val_score(est_b, *args, cv=build_cv(cvspec), scoring=build_scoring(scoring_b), delayed=True)
+    db = vd.cross_val_score(est_b, *args_b, cv=build_cv(cvspec_b), scoring=build_scoring(scoring_b), delayed=True)
     must_b = not isinstance(want_b, Exception) and not any(np.isnan(w) for w in want_b)
     ok, got = call_verde(lambda: list(dask.compute(*da, *db, scheduler=ex.get)), must and must_b, "merged cross_val_score graphs")
     check_estimator_untouched(before_b, est_b, "merged cross_val_score graphs")
